@@ -55,6 +55,12 @@ func (p *Parser) ParseRecoverOperation(request []byte, batch bool) (*model.Opera
 		if schema.Delta.UpdateCommitment == signedData.RecoveryCommitment {
 			return nil, errors.New("recovery and update commitments cannot be equal, re-using public keys is not allowed")
 		}
+
+		// neither may the next update commitment be the commitment of the recovery key this operation reveals
+		err = p.validateCommitment(signedData.RecoveryKey, schema.Delta.UpdateCommitment)
+		if err != nil {
+			return nil, err
+		}
 	}
 
 	err = hashing.IsValidModelMultihash(signedData.RecoveryKey, schema.RevealValue)
